@@ -45,7 +45,10 @@ def atxJson (a : ATx) : Json :=
     ("sdh", a.hasScriptDataHash), ("adh", a.hasAuxDataHash),
     ("metadata", .arr (a.metadata.map fun (k, v) => Json.arr #[jint k, metaJson v]).toArray),
     ("redeemers", .arr (a.redeemers.map fun ((t, i), d) =>
-        Json.arr #[Json.num (t : Int), Json.num (i : Int), pdJson d]).toArray)]
+        Json.arr #[Json.num (t : Int), Json.num (i : Int), pdJson d]).toArray),
+    ("plutus", .arr (a.plutusScripts.map fun (v, ss) =>
+        Json.arr #[Json.num (v : Int), .arr (ss.map jhex).toArray]).toArray),
+    ("native", Json.num (a.nativeScripts : Int))]
 
 /-! ### Spec: what the constant template denotes (written from the property statements) -/
 
@@ -161,7 +164,7 @@ def judge (prop : String) (j : Json) : R Verdict := do
     | .ok m =>
       if (atxJson m).compress != (atxJson atx).compress then
         let fields := ["inputs", "outputs", "fee", "ttl", "start", "mint", "withdrawals", "collateral",
-          "signers", "refs", "network", "donation", "certs", "sdh", "adh", "metadata", "redeemers"]
+          "signers", "refs", "network", "donation", "certs", "sdh", "adh", "metadata", "redeemers", "plutus", "native"]
         let mj := atxJson m; let aj := atxJson atx
         let diff := fields.filter fun f => (fieldD mj f).compress != (fieldD aj f).compress
         corr := corr ++ (diff.map ("field:" ++ ·))
@@ -253,7 +256,7 @@ def judge (prop : String) (j : Json) : R Verdict := do
           if (tx.metadata.filter fun m' => numOf m'.key == some k).length == 1 then
             if !(atx.metadata.any fun kv => kv.1 = k && kv.2 == .int v) then spec := spec ++ ["exact:metadata"]
         | _, _ => pure ()
-    if prop == "C09" then
+    if prop == "C09" || prop == "C02" then
       if expectedOutputs.length ≤ atx.outputs.length then
         for (o, a) in expectedOutputs.zip atx.outputs do
           if !o.datum.isNone then
